@@ -431,6 +431,32 @@ func (e *env) run(in Input) Obs {
 		o.NUnscopedFind = sorted(whr.IDsOf(dst))
 	}
 	writes(false, &o.NUpdate, nil, &o.NDel, nil, nil)
+	// the caller names the soft-delete column: in a condition (no live row carries the twins' stamp:
+	// nothing is read, counted or changed) and in an update's values (the update still leaves the
+	// marked rows alone)
+	if e.n%2 == 0 {
+		fail("reset", e.reset(in, true))
+		for i, tx := range []*gorm.DB{db.Where("deleted_at", t1), db.Where(map[string]interface{}{"deleted_at": t1}), db.Where("age >= ?", 0).Where("deleted_at = ?", t1)} {
+			dst := whr.NewSoftSlice(in.Variant)
+			var n int64
+			fail("named_find", tx.Session(&gorm.Session{}).Find(dst).Error)
+			fail("named_count", tx.Session(&gorm.Session{}).Model(whr.NewSoftOne(in.Variant)).Count(&n).Error)
+			if ids := whr.IDsOf(dst); len(ids) != 0 || n != 0 {
+				o.Errs = append(o.Errs, fmt.Sprintf("a condition on the soft-delete column (form %d) read marked rows %v, counted %d", i, ids, n))
+			}
+			before := e.dump()
+			fail("named_update", tx.Session(&gorm.Session{}).Model(whr.NewSoftOne(in.Variant)).Update("mark", 9).Error)
+			fail("named_delete", tx.Session(&gorm.Session{NowFunc: func() time.Time { return t2.Add(2 * time.Hour) }}).Delete(whr.NewSoftOne(in.Variant)).Error)
+			if ch := changed(before, e.dump(), func(int64) bool { return true }); len(ch) != 0 {
+				o.Errs = append(o.Errs, fmt.Sprintf("a condition on the soft-delete column (form %d) let an update / delete change rows %v", i, ch))
+			}
+		}
+		before := e.dump()
+		fail("payload_update", build(db).Session(&gorm.Session{AllowGlobalUpdate: true}).Model(whr.NewSoftOne(in.Variant)).Updates(map[string]interface{}{"mark": 5, "deleted_at": nil}).Error)
+		if ch := changed(before, e.dump(), isTwin); len(ch) != 0 {
+			o.Errs = append(o.Errs, fmt.Sprintf("an update whose values name the soft-delete column changed marked rows %v", ch))
+		}
+	}
 	e.runHist(in, &o)
 	return o
 }
